@@ -28,13 +28,18 @@ class _Meta(type(_real_datetime)):
 
 
 class VDatetime(_real_datetime, metaclass=_Meta):
-    _vt_now = None
+    _vt_now = None          # virtual LOCAL time (naive)
+    _vt_utc_offset = 0      # seconds east of UTC of the world's time zone
 
     @classmethod
     def now(cls, tz=None):
         if cls._vt_now is None:
             return _real_datetime.now(tz)
         n = cls._vt_now
+        if tz is not None:
+            u = n - _dt.timedelta(seconds=cls._vt_utc_offset)
+            return _real_datetime(u.year, u.month, u.day, u.hour, u.minute, u.second,
+                                  u.microsecond, tzinfo=_dt.timezone.utc).astimezone(tz)
         return cls(n.year, n.month, n.day, n.hour, n.minute, n.second, n.microsecond)
 
     @classmethod
@@ -43,7 +48,10 @@ class VDatetime(_real_datetime, metaclass=_Meta):
 
     @classmethod
     def utcnow(cls):
-        return cls.now()
+        if cls._vt_now is None:
+            return _real_datetime.utcnow()
+        n = cls._vt_now - _dt.timedelta(seconds=cls._vt_utc_offset)
+        return cls(n.year, n.month, n.day, n.hour, n.minute, n.second, n.microsecond)
 
 
 VDatetime.__name__ = "datetime"
@@ -63,11 +71,12 @@ def _getuid():
     return _real_getuid() if _uid[0] is None else _uid[0]
 
 
-def set_world(vols, uid, now):
+def set_world(vols, uid, now, utc_offset=0):
     """called in the child: vols are world-absolute mount points ('/' included)"""
     _partitions[:] = [sdiskpart("/dev/vt%d" % i, v, "ext4", "rw") for i, v in enumerate(vols)]
     _uid[0] = uid
     VDatetime._vt_now = now
+    VDatetime._vt_utc_offset = utc_offset
 
 
 SCRIPTS = ("trash-put", "trash-list", "trash-restore", "trash-empty", "trash-rm", "trash")
